@@ -409,7 +409,7 @@ def main(ctx):
 def replay(path):
     rp = json.loads(Path(path).read_text())
     c = rp['case']
-    ctx = lib.Ctx('C07', 'quick')
+    ctx = lib.Ctx('C07', 'quick', clear_replays=False)
     if 'format' not in c:
         print('nothing to replay on the implementation: ', json.dumps(rp, indent=1))
         return 1
